@@ -50,6 +50,26 @@ Proof.
   intros Ht Hs K. induction n as [|n IH]; cbn [iter]; auto. rewrite pdhg_fixed_point; auto.
 Qed.
 
+(* accelerated pdhg (gamma_primal / gamma_dual): the steps change every iteration but stay
+   positive, so the KKT state is left unchanged by every iteration, whatever the roots *)
+Theorem pdhg_accelerated_fixed_point primal rts : forall tau sigma xs ys,
+  0 < tau -> 0 < sigma -> Forall (fun r => 0 < r) rts -> kkt xs ys ->
+  Forall (fun s => s = {| pd_x := xs; pd_xr := xs; pd_y := ys |})
+         (pdhg_acc_run X Y vplus smul vplus smul A (adj A) proxF proxGc primal rts tau sigma
+                       {| pd_x := xs; pd_xr := xs; pd_y := ys |}).
+Proof.
+  induction rts as [|r rts IH]; intros tau sigma xs ys Ht Hs Hr K; cbn [pdhg_acc_run]; [constructor|].
+  inversion Hr as [|? ? Hr0 Hr']; subst. numR.
+  fold (PD tau sigma (1 / r)). rewrite pdhg_fixed_point; auto.
+  assert (Hth : 0 < 1 / r) by (apply Rdiv_lt_0_compat; lra).
+  constructor; [reflexivity|].
+  apply IH; auto; destruct primal.
+  - apply Rmult_lt_0_compat; auto.
+  - apply Rdiv_lt_0_compat; auto.
+  - apply Rdiv_lt_0_compat; auto.
+  - apply Rmult_lt_0_compat; auto.
+Qed.
+
 (* converse: a state that one step leaves unchanged is primal-dual optimal *)
 Theorem pdhg_fixed_is_optimal tau sigma theta s :
   0 < tau -> 0 < sigma -> PD tau sigma theta s = s ->
